@@ -121,16 +121,45 @@ def choose_reps(a, rng, policy):
 WEIGHT_POOLS = ([1], [1], [1, 2, 3], [1, 2, 3], [0.5, 1.5, 2.25], [1, 100, 200])
 
 
+def _size(rng, lo, hi):
+    """mostly lo..hi nodes; sometimes 2-3 nodes, sometimes 12-25"""
+    u = rng.random()
+    if u < 0.06:
+        return rng.randint(2, 3)
+    if u < 0.12:
+        return rng.randint(12, 25)
+    return rng.randint(lo, hi)
+
+
 def make_graph(rng, kind):
     """a float64 canonical CSR graph of the kind; weights: unit, small integers, dyadic fractions, or large
     integers (beyond int8)"""
     a = None
     for _ in range(60):
         pool = rng.choice(WEIGHT_POOLS)
-        if kind in ('und', 'und_conn'):
+        if kind == 'und_distinct':
+            from scipy.sparse.csgraph import connected_components
             n = rng.randint(4, 11)
+            es = graphs.structured(rng, rng.choice(['random_undirected', 'blocks', 'random_undirected']), n)
+            und = sorted({(min(i, j), max(i, j)) for i, j in es})
+            ws = rng.sample(range(1, 8 * max(len(und), 1) + 8), len(und))          # distinct k/8
+            w = {e: k / 8 for e, k in zip(und, ws)}
+            a = graphs.csr_from_edges(n, es, [w[(min(i, j), max(i, j))] for i, j in es])
+            if a.nnz == 0 or connected_components(a, directed=False)[0] != 1:
+                continue
+        elif kind == 'bip_distinct':
+            nr, nc = rng.randint(3, 7), rng.randint(3, 7)
+            if nr == nc:
+                nc += 1
+            es = graphs.random_edges(rng, nr, 0.6, m=nc)
+            ws = rng.sample(range(1, 8 * max(len(es), 1) + 8), len(es))
+            a = graphs.csr_from_edges(nr, es, [k / 8 for k in ws], m=nc)
+            if a.nnz and (np.diff(a.indptr).min() == 0 or np.diff(a.tocsc().indptr).min() == 0):
+                continue
+        elif kind in ('und', 'und_conn'):
+            n = _size(rng, 4, 11)
             k = rng.choice(['path', 'cycle', 'star', 'grid', 'blocks', 'random_undirected', 'clique'] if kind == 'und_conn'
-                           else graphs.UNDIRECTED_KINDS[:-1])
+                           else graphs.UNDIRECTED_KINDS)          # 'selfloops' included
             es = graphs.structured(rng, k, n)
             a = graphs.csr_from_edges(n, es, graphs.sym_weights(rng, es, pool))
             if kind == 'und_conn':
@@ -138,8 +167,10 @@ def make_graph(rng, kind):
                 if connected_components(a, directed=False)[0] != 1:
                     continue
         elif kind in ('dir', 'dir_small'):
-            n = rng.randint(4, 10) if kind == 'dir' else rng.randint(3, 6)
+            n = _size(rng, 4, 10) if kind == 'dir' else rng.randint(3, 6)
             es = graphs.structured(rng, rng.choice(graphs.DIRECTED_KINDS), n)
+            if kind == 'dir' and rng.random() < 0.15:            # some self-loops
+                es = sorted(set(es) | {(i, i) for i in rng.sample(range(n), min(n, 2))})
             a = graphs.csr_from_edges(n, es, [rng.choice(pool) for _ in es])
         elif kind == 'bip':
             nr, nc = rng.randint(3, 7), rng.randint(3, 7)
@@ -147,11 +178,11 @@ def make_graph(rng, kind):
                 nc += 1
             es = graphs.random_edges(rng, nr, 0.5, m=nc)
             a = graphs.csr_from_edges(nr, es, [rng.choice(pool) for _ in es], m=nc)
-            if a.nnz and (np.diff(a.indptr).min() == 0 or np.diff(a.tocsc().indptr).min() == 0):
-                continue
+            if a.nnz and (np.diff(a.indptr).min() == 0 or np.diff(a.tocsc().indptr).min() == 0) and rng.random() < 0.8:
+                continue          # mostly without empty rows / columns; one time in five they are kept
         else:
             raise ValueError(kind)
-        if a.nnz >= 3:
+        if a.nnz >= 3 or (a.nnz >= 1 and a.shape[0] <= 3):
             return a
     return a
 
@@ -167,7 +198,7 @@ def _forms(rng, n, gen, default, dtype):
 
 def make_aux(rng, a, kind):
     nr, nc = a.shape
-    bip = kind == 'bip'
+    bip = kind in ('bip', 'bip_distinct')
     npr = np.random.default_rng(rng.randrange(10 ** 6))
     aux = {'bip': bip, 'variant': rng.randrange(10 ** 6), 'n_epochs': 3}
 
@@ -221,9 +252,16 @@ def make_aux(rng, a, kind):
                 with warnings.catch_warnings():
                     warnings.simplefilter('ignore')
                     dend = Paris().fit_predict(sym)
-        except Exception:  # noqa
+        except Exception as e:  # noqa: counted; an entry that never gets its dendrogram is a tool failure (check_liveness)
             dend = None
+            aux['dendrogram_error'] = type(e).__name__
     aux['dendrogram'] = dend
+    aux['dims_list'], aux['layer_types_list'], aux['activations_list'] = [4, 2], ['Conv', 'Conv'], ['ReLu', 'Softmax']
+    aux['use_bias_list'], aux['normalizations_list'], aux['self_embeddings_list'], aux['sample_sizes_list'] = [True, False], ['both', 'left'], [True, True], [5, 5]
+    coo = sparse.coo_matrix(a)
+    aux['edge_list'] = [(int(i), int(j), float(v)) for i, j, v in zip(coo.row, coo.col, coo.data)]
+    aux['edge_array'] = np.array([[int(i), int(j)] for i, j in zip(coo.row, coo.col)])
+    aux['adjacency_list'] = [[int(j) for j in a.indices[a.indptr[i]:a.indptr[i + 1]]] for i in range(nr)]
     aux['labels_true'] = np.array([rng.randrange(3) for _ in range(nr)])
     aux['labels_pred'] = np.array([rng.randrange(3) for _ in range(nr)])
     return aux
@@ -233,9 +271,63 @@ def make_aux(rng, a, kind):
 # entries
 # ------------------------------------------------------------------------------------------------
 class Entry:
-    def __init__(self, name, kinds, policy, tol, f, sign_free=False, norm_mask=False, needs=None, top_simple=False, tie_ok=None):
+    def __init__(self, name, kinds, policy, tol, f, sign_free=False, norm_mask=False, needs=None, top_simple=False, tie_ok=None, spectrum=None):
         self.name, self.kinds, self.policy, self.tol, self.f = name, tuple(kinds), policy, tol, f
         self.sign_free, self.norm_mask, self.needs, self.top_simple, self.tie_ok = sign_free, norm_mask, needs, top_simple, tie_ok
+        self.spectrum = spectrum        # a -> the values (returned ones + the next) whose multiplicity makes the vectors undefined
+
+
+# ------------------------------------------------------------------------------------------------
+# the spectrum each eigen / singular vector entry decomposes (computed densely, in float64, from the reference graph)
+# ------------------------------------------------------------------------------------------------
+def spectrum_spectral(normalized_laplacian, n_components=2):
+    """Spectral: the `n_components + 1` smallest eigenvalues of the (regularised, possibly normalised) Laplacian that
+    `fit` hands to the solver — the first is dropped, the others are returned — plus the next one"""
+    def f(a):
+        from sknetwork.utils.format import get_adjacency
+        adj, _ = get_adjacency(sparse.csr_matrix(a, copy=True), allow_directed=False)
+        A = np.asarray(adj.todense(), dtype=float)
+        n = A.shape[0]
+        from scipy.sparse.csgraph import connected_components
+        reg = 0.0 if connected_components(sparse.csr_matrix(A), connection='strong', return_labels=False) == 1 else 1.0
+        w = A.sum(axis=1)
+        L = np.diag(w) - A + reg * (np.eye(n) - np.ones((n, n)) / n)
+        if normalized_laplacian:
+            with np.errstate(divide='ignore'):
+                d = np.where(w + reg > 0, 1 / np.sqrt(w + reg), 0.0)
+            L = d[:, None] * L * d[None, :]
+        ev = np.sort(np.linalg.eigvalsh((L + L.T) / 2))
+        k = min(n_components, n - 2) + 1
+        return ev[:k + 1]
+    return f
+
+
+def spectrum_gsvd(factor_row, factor_col, n_components=2):
+    """GSVD / SVD: the `n_components` largest singular values of D_row^-f A D_col^-f, plus the next one"""
+    def f(a):
+        A = np.asarray(a.todense(), dtype=float)
+        wr, wc = A.sum(axis=1), A.sum(axis=0)
+        with np.errstate(divide='ignore', invalid='ignore'):
+            dr = np.where(wr > 0, np.power(np.where(wr > 0, wr, 1.0), -factor_row), 0.0) if factor_row else np.ones_like(wr)
+            dc = np.where(wc > 0, np.power(np.where(wc > 0, wc, 1.0), -factor_col), 0.0) if factor_col else np.ones_like(wc)
+        sv = np.linalg.svd(dr[:, None] * A * dc[None, :], compute_uv=False)
+        k = min(n_components, min(A.shape) - 1)
+        return sv[:k + 1]
+    return f
+
+
+def spectrum_pca(n_components=2):
+    def f(a):
+        A = np.asarray(a.todense(), dtype=float)
+        sv = np.linalg.svd(A - A.mean(axis=0, keepdims=True), compute_uv=False)
+        return sv[:n_components + 1]
+    return f
+
+
+def spectrum_multiple(values, rel=1e-8):
+    """two of the values (the returned ones and the first one not returned) coincide"""
+    v = np.sort(np.asarray(values, dtype=float))
+    return bool(len(v) > 1 and np.min(np.diff(v)) <= rel * max(1.0, float(np.max(np.abs(v)))))
 
 
 def fitted(est):
@@ -425,18 +517,23 @@ def entries():
             nor.fit(m)
             return {'raw': fitted(raw), 'normalized': fitted(nor)}
         return mk_f
-    add('Spectral', (UC, U, B, D), 'all', 1e-6, twin(embedding.Spectral, n_components=2), sign_free=True, norm_mask=True)
-    add('Spectral(laplacian)', (UC, U), 'all', 1e-6, twin(embedding.Spectral, n_components=2, decomposition='laplacian'), sign_free=True, norm_mask=True)
-    add('SVD', (B, U, D), 'all', 1e-6, twin(embedding.SVD, n_components=2), sign_free=True, norm_mask=True)
-    add('GSVD', (B, U, D), 'all', 1e-6, twin(embedding.GSVD, n_components=2), sign_free=True, norm_mask=True)
-    add('PCA', (B, U, D), 'all', 1e-6, twin(embedding.PCA, n_components=2), sign_free=True, norm_mask=True)
+    UD, BD = 'und_distinct', 'bip_distinct'       # distinct dyadic weights: simple spectra, so that the vectors are compared
+    SPEC = {'SVD': spectrum_gsvd(0, 0), 'GSVD': spectrum_gsvd(0.5, 0.5), 'PCA': spectrum_pca()}
+    add('Spectral', (UC, UD, U, B, D, BD), 'all', 1e-6, twin(embedding.Spectral, n_components=2), sign_free=True, norm_mask=True,
+        spectrum=spectrum_spectral(True))
+    add('Spectral(laplacian)', (UD, UC, U), 'all', 1e-6, twin(embedding.Spectral, n_components=2, decomposition='laplacian'), sign_free=True,
+        norm_mask=True, spectrum=spectrum_spectral(False))
+    add('SVD', (BD, B, UD, U, D), 'all', 1e-6, twin(embedding.SVD, n_components=2), sign_free=True, norm_mask=True, spectrum=SPEC['SVD'])
+    add('GSVD', (BD, B, UD, U, D), 'all', 1e-6, twin(embedding.GSVD, n_components=2), sign_free=True, norm_mask=True, spectrum=SPEC['GSVD'])
+    add('PCA', (BD, B, UD, U, D), 'all', 1e-6, twin(embedding.PCA, n_components=2), sign_free=True, norm_mask=True, spectrum=SPEC['PCA'])
 
     def predict_vectors(e, aux, conv):
         out = {'embedding_predict_matrix': e.predict(conv(aux['vectors']))}
         out['embedding_predict_vector'] = e.predict(aux['vector'])
         return out
     for nm, ctor in (('SVD', embedding.SVD), ('GSVD', embedding.GSVD), ('PCA', embedding.PCA)):
-        est(nm + '.predict', lambda ctor=ctor: ctor(2, normalized=False), (B, U), 1e-6, post=predict_vectors, sign_free=True)
+        est(nm + '.predict', lambda ctor=ctor: ctor(2, normalized=False), (BD, B, UD, U), 1e-6, post=predict_vectors, sign_free=True,
+            spectrum=SPEC[nm])
     add('RandomProjection', (U, D, B), 'all', 1e-8, twin(embedding.RandomProjection, n_components=2, random_state=3), norm_mask=True)
     est('LouvainEmbedding', lambda: embedding.LouvainEmbedding(shuffle_nodes=False, random_state=0), (B, U), 5e-5, policy='csr')
     est('Spring', lambda: embedding.Spring(2, n_iter=5), (U, D), 1e-6, lambda aux, conv: {'position_init': aux['position']},
@@ -473,6 +570,13 @@ def entries():
                 'n_epochs': aux['n_epochs'], 'random_state': 1}
     est('GNNClassifier', lambda: gnn.GNNClassifier(dims=[4, 2], verbose=False), (U, D), 1e-6, gnn_kw)
     est('GNNClassifier(sage)', lambda: gnn.GNNClassifier(dims=[4, 2], layer_types='Sage', sample_sizes=30, verbose=False), (U,), 1e-6, gnn_kw)
+    arr('GNNClassifier(lists)', lambda aux: fitted(gnn.GNNClassifier(
+        dims=aux['dims_list'], layer_types=aux['layer_types_list'], activations=aux['activations_list'], use_bias=aux['use_bias_list'],
+        normalizations=aux['normalizations_list'], self_embeddings=aux['self_embeddings_list'], sample_sizes=aux['sample_sizes_list'])))
+    from sknetwork import data as skdata
+    arr('from_edge_list', lambda aux: (skdata.from_edge_list(aux['edge_list'], directed=True, matrix_only=True),
+                                       skdata.from_edge_list(aux['edge_array'], matrix_only=True)), (D, U))
+    arr('from_adjacency_list', lambda aux: skdata.from_adjacency_list(aux['adjacency_list'], directed=True, matrix_only=True), (D, U))
     # ---------------------------------------------------------------- path
     def src_kw(aux):
         if aux['bip']:
@@ -527,7 +631,7 @@ def entries():
         kw['display_edge_weight'] = bool((v >> 10) & 1)
         kw['display_node_weight'] = bool((v >> 11) & 1)
         return kw
-    fun('visualize_graph', lambda m, aux, conv: visualization.visualize_graph(m, **vg_kw(aux, conv)), (U, D), 0)
+    fun('visualize_graph', lambda m, aux, conv: visualization.visualize_graph(m, **vg_kw(aux, conv)), (U, D), 0, 'all')
     fun('visualize_graph(no position)', lambda m, aux, conv: visualization.visualize_graph(m, labels=aux['labels_array']), (U,), 0)
 
     def vb_kw(aux, conv):
@@ -550,7 +654,7 @@ def entries():
         kw['reorder'] = bool((v >> 13) & 1)
         kw['display_node_weight'] = bool((v >> 14) & 1)
         return kw
-    fun('visualize_bigraph', lambda m, aux, conv: visualization.visualize_bigraph(m, **vb_kw(aux, conv)), (B,), 0)
+    fun('visualize_bigraph', lambda m, aux, conv: visualization.visualize_bigraph(m, **vb_kw(aux, conv)), (B,), 0, 'all')
     arr('visualize_dendrogram', lambda aux: visualization.visualize_dendrogram(aux['dendrogram'], names=aux['names'], reorder=True), **D0)
     # ---------------------------------------------------------------- utils / linalg
     fun('check_format', lambda m, aux, conv: utils.check_format(m), (U, D, B), 0, 'all')
